@@ -92,13 +92,34 @@ type c19API struct {
 // per evicted entry, from a generator that is not safe for concurrent use.
 var c19Prob atomic.Int32 // per cent
 
+// c19Opts selects builder options of the caches built next: bit 0 = doorkeeper on, bit 1 = a cost function instead of
+// explicit costs, bit 2 = the loader fails or panics now and then.
+var c19Opts atomic.Int32
+
+func c19Cost(opts int32) int64 {
+	if opts&2 != 0 {
+		return 0 // the cost function decides
+	}
+	return 1
+}
+
 func c19Build(kind string, maxSize int64, notes *atomic.Int64) (*c19API, error) {
 	prob := float32(c19Prob.Load()) / 100
 	if prob <= 0 {
 		prob = 1
 	}
 	listener := func(k int, v int64, r theine.RemoveReason) { notes.Add(1) }
+	opts := c19Opts.Load()
+	var loadSeq atomic.Int64
 	loader := func(ctx context.Context, k int) (theine.Loaded[int64], error) {
+		if opts&4 != 0 {
+			switch n := loadSeq.Add(1); {
+			case n%11 == 0:
+				return theine.Loaded[int64]{}, fmt.Errorf("load %d failed", n)
+			case n%53 == 0:
+				panic(fmt.Sprintf("load %d panicked", n))
+			}
+		}
 		var ttl time.Duration
 		if k%5 == 0 {
 			ttl = time.Duration(1+k%3000) * time.Microsecond
@@ -106,13 +127,24 @@ func c19Build(kind string, maxSize int64, notes *atomic.Int64) (*c19API, error) 
 		return theine.Loaded[int64]{Value: int64(k) * 3, Cost: 1, TTL: ttl}, nil
 	}
 	b := theine.NewBuilder[int, int64](maxSize).RemovalListener(listener)
+	if opts&1 != 0 {
+		b = b.Doorkeeper(true)
+	}
+	if opts&2 != 0 {
+		b = b.Cost(func(v int64) int64 { return 1 + v&1 })
+	}
+	// a loader panic reaches the caller as a panic of Get: the workload goroutine survives it
+	safely := func(f func()) {
+		defer func() { _ = recover() }()
+		f()
+	}
 	switch kind {
 	case "plain":
 		c, err := b.Build()
 		if err != nil {
 			return nil, err
 		}
-		return &c19API{get: func(k int) { c.Get(k) }, set: func(k int, v int64, ttl time.Duration) { c.SetWithTTL(k, v, 1, ttl) }, del: c.Delete,
+		return &c19API{get: func(k int) { c.Get(k) }, set: func(k int, v int64, ttl time.Duration) { c.SetWithTTL(k, v, c19Cost(opts), ttl) }, del: c.Delete,
 			rangef: c.Range, length: c.Len, est: c.EstimatedSize, stats: func() { s := c.Stats(); _ = s.Hits() + s.Misses() }, wait: c.Wait,
 			save: func(w io.Writer) error { return c.SaveCache(0, w) }, close: c.Close}, nil
 	case "loading":
@@ -120,7 +152,7 @@ func c19Build(kind string, maxSize int64, notes *atomic.Int64) (*c19API, error) 
 		if err != nil {
 			return nil, err
 		}
-		return &c19API{get: func(k int) { _, _ = c.Get(context.Background(), k) }, set: func(k int, v int64, ttl time.Duration) { c.SetWithTTL(k, v, 1, ttl) }, del: c.Delete,
+		return &c19API{get: func(k int) { safely(func() { _, _ = c.Get(context.Background(), k) }) }, set: func(k int, v int64, ttl time.Duration) { c.SetWithTTL(k, v, c19Cost(opts), ttl) }, del: c.Delete,
 			rangef: c.Range, length: c.Len, est: c.EstimatedSize, stats: func() { s := c.Stats(); _ = s.Hits() + s.Misses() }, wait: c.Wait,
 			save: func(w io.Writer) error { return c.SaveCache(0, w) }, close: c.Close}, nil
 	case "hybrid":
@@ -129,7 +161,7 @@ func c19Build(kind string, maxSize int64, notes *atomic.Int64) (*c19API, error) 
 		if err != nil {
 			return nil, err
 		}
-		return &c19API{get: func(k int) { _, _, _ = c.Get(k) }, set: func(k int, v int64, ttl time.Duration) { c.SetWithTTL(k, v, 1, ttl) }, del: func(k int) { _ = c.Delete(k) },
+		return &c19API{get: func(k int) { _, _, _ = c.Get(k) }, set: func(k int, v int64, ttl time.Duration) { c.SetWithTTL(k, v, c19Cost(opts), ttl) }, del: func(k int) { _ = c.Delete(k) },
 			save: func(w io.Writer) error { return c.SaveCache(0, w) }, close: func() { c.Close(); c.VerifStore().Close() }}, nil
 	case "hybrid-loading":
 		sec := &c19Sec{m: map[int][3]int64{}}
@@ -137,7 +169,7 @@ func c19Build(kind string, maxSize int64, notes *atomic.Int64) (*c19API, error) 
 		if err != nil {
 			return nil, err
 		}
-		return &c19API{get: func(k int) { _, _ = c.Get(context.Background(), k) }, set: func(k int, v int64, ttl time.Duration) { c.SetWithTTL(k, v, 1, ttl) }, del: func(k int) { _ = c.Delete(k) },
+		return &c19API{get: func(k int) { safely(func() { _, _ = c.Get(context.Background(), k) }) }, set: func(k int, v int64, ttl time.Duration) { c.SetWithTTL(k, v, c19Cost(opts), ttl) }, del: func(k int) { _ = c.Delete(k) },
 			save: func(w io.Writer) error { return c.SaveCache(0, w) }, close: c.Close}, nil
 	}
 	return nil, fmt.Errorf("unknown kind %s", kind)
@@ -246,38 +278,101 @@ func c19Workload(r *Run, idx int, kind string, maxSize int64, G, ops, keys int) 
 	}()
 	go func() { writers.Wait(); close(writersDone) }()
 	wg.Wait()
-	// Close races with readers only (operations after/while Close are C10's business: several block forever today)
+	// Close races with readers (even workloads) or with every kind of call (odd workloads): writers, Wait, SaveCache
+	// and the size views are in flight when Close lands and go on for a moment after it has returned.
+	mixed := idx%2 == 1
 	var rg sync.WaitGroup
 	stop := make(chan struct{})
-	for g := 0; g < 4; g++ {
+	closers := 4
+	if mixed {
+		closers = 6
+	}
+	closeLogs := make([][]c19Rec, closers)
+	for g := 0; g < closers; g++ {
 		rg.Add(1)
 		go func(g int) {
 			defer rg.Done()
+			var lg []c19Rec
+			defer func() { closeLogs[g] = lg }()
 			for i := 0; ; i++ {
 				select {
 				case <-stop:
 					return
 				default:
 				}
-				api.get(i % keys)
-				if api.length != nil && i%16 == 0 {
-					_ = api.length()
-					api.stats()
-					if i%64 == 0 {
-						api.rangef(func(int, int64) bool { return true })
+				if !mixed {
+					api.get(i % keys)
+					if api.length != nil && i%16 == 0 {
+						_ = api.length()
+						api.stats()
+						if i%64 == 0 {
+							api.rangef(func(int, int64) bool { return true })
+							_ = api.est()
+						}
+					}
+					continue
+				}
+				t0 := now()
+				var op uint8
+				switch (i + g) % 8 {
+				case 0, 6:
+					op = c19Set
+					api.set((i*7+g)%keys, int64(g)<<32|int64(i), 0)
+				case 1, 4:
+					op = c19Get
+					api.get(i % keys)
+				case 2:
+					op = c19Delete
+					api.del((i*3+g)%keys)
+				case 3:
+					op = c19SetTTL
+					api.set((i*5+g)%keys, int64(g)<<32|int64(i), time.Duration(1+i%3000)*time.Microsecond)
+				case 5:
+					if g == 0 && api.wait != nil {
+						op = c19Wait
+						api.wait()
+					} else if g == 1 {
+						op = c19Save
+						_ = api.save(io.Discard)
+					} else {
+						op = c19Get
+						api.get(i % keys)
+					}
+				default:
+					op = c19Get
+					if api.length != nil {
+						op = c19Len
+						_ = api.length()
+						api.stats()
 						_ = api.est()
+						api.rangef(func(int, int64) bool { return true })
+					} else {
+						api.get(i % keys)
 					}
 				}
+				lg = append(lg, c19Rec{op, t0, now()})
 			}
 		}(g)
 	}
 	time.Sleep(2 * time.Millisecond)
 	t0 := now()
 	api.close()
-	logs[G+2] = []c19Rec{{c19Close, t0, now()}}
+	t1 := now()
+	logs[G+2] = []c19Rec{{c19Close, t0, t1}}
 	time.Sleep(time.Millisecond)
 	close(stop)
 	rg.Wait()
+	if mixed {
+		r.Count("closes_racing_writers_wait_and_save", 1)
+		for _, lg := range closeLogs {
+			for _, rec := range lg {
+				if rec.t0 < t1 && rec.t1 > t0 {
+					r.Distinct(kind + "/Closex" + c19Names[rec.op] + "/in-flight")
+				}
+			}
+			logs = append(logs, lg)
+		}
+	}
 
 	// ---- which op types overlapped in time
 	var all []c19Rec
@@ -320,10 +415,10 @@ func c19Workload(r *Run, idx int, kind string, maxSize int64, G, ops, keys int) 
 }
 
 func runC19(r *Run) {
-	r.Rule("case = one hostile concurrent run under the race detector (all API operations incl. Range/Len/EstimatedSize/Stats/Wait/SaveCache and a Close racing readers; removal listener installed; plain / loading / hybrid / hybrid-loading; tiny and large MaxSize; short TTLs). " +
+	r.Rule("case = one hostile concurrent run under the race detector (all API operations incl. Range/Len/EstimatedSize/Stats/Wait/SaveCache and a Close racing readers or, every other run, writers + Wait + SaveCache; removal listener installed; doorkeeper / cost function / failing and panicking loader varied; plain / loading / hybrid / hybrid-loading; tiny and large MaxSize; short TTLs). " +
 		"distinct_nontrivial = distinct (cache kind, op type x op type) cells whose operations were observed overlapping in time (from per-goroutine monotonic timestamps)")
 	r.Assume("oracle = Go race detector (reports are counted by the driver from the race log; reports with a theine frame are violations)",
-		"no harness-side synchronisation on the operation path; only one goroutine calls Wait; Close races readers only (writers racing Close block forever today: C10)",
+		"no harness-side synchronisation on the operation path; only one goroutine calls Wait; Close races readers in the even workloads and writers, Wait, SaveCache and the size views in the odd ones",
 		"LoadCache is not part of the property's operation list and is not mixed in")
 	kinds := []string{"plain", "loading", "hybrid", "hybrid-loading"}
 	sizes := []int64{2, 64, 5000}
@@ -375,6 +470,11 @@ func runC19(r *Run) {
 		c19Prob.Store([]int32{60, 100}[(idx/len(kinds))%2])
 		if strings.HasPrefix(kind, "hybrid") && c19Prob.Load() < 100 {
 			r.Count("hybrid_workloads_with_admission_probability_below_1", 1)
+		}
+		// builder options: doorkeeper / cost function / failing loader, varied independently of the kind
+		c19Opts.Store([]int32{0, 1, 2, 4, 3, 5, 6, 7, 4, 0, 5, 2}[(idx+idx/12)%12])
+		if o := c19Opts.Load(); o != 0 {
+			r.Count(fmt.Sprintf("workloads_with_builder_options_%03b(failing-loader,cost-function,doorkeeper)", o), 1)
 		}
 		c19Workload(r, idx, kind, size, G, ops, keys)
 	}
